@@ -268,6 +268,17 @@ def family():
           SEQ(('decl', 'f', LAM(['k'], LAM(['m'], B('+', V('k'), V('m'))))), ('call', ('call', f, [V('x')]), [V('y')])),
           # a closure that escapes its defining scope keeps it alive
           SEQ(('decl', 'f', ('call', LAM([], SEQ(('decl', 'loc', V('x')), LAM([], SEQ(('opset', 'loc', '+', N(1)), V('loc'))))), [])), ('call', f, []), ('call', f, []))]
+    # a closure created in a while body keeps that iteration's variable (fresh scope per iteration)
+    P += [SEQ(('decl', 'f1', ('null',)), ('decl', 'f2', ('null',)), ('decl', 'k', N(0)),
+              ('while', B('<', V('k'), N(2)), SEQ(('decl', 'j', B('+', V('k'), V('x'))), ('if', B('==', V('k'), N(0)), ('set', 'f1', LAM([], V('j'))), ('set', 'f2', LAM([], V('j')))), ('opset', 'k', '+', N(1)))),
+              ('list', [('call', V('f1'), []), ('call', V('f2'), [])])),
+          SEQ(('decl', 'g', ('null',)), ('decl', 'k', N(0)), ('while', B('<', V('k'), N(3)), SEQ(('decl', 'j', B('*', V('k'), N(10))), ('if', B('==', V('k'), V('x')), ('set', 'g', LAM([], SEQ(('opset', 'j', '+', N(1)), V('j')))), None), ('opset', 'k', '+', N(1)))),
+              ('if', g, ('list', [('call', g, []), ('call', g, [])]), N(-1))),
+          # multi-level continue out of a yield comprehension, and control flow raised while a for clause is evaluated
+          SEQ(('decl', 'a', N(0)), ('for', 'i', L123, SEQ(('decl', 'b', ('foryield', 'j', L123, None, ('if', B('==', j, V('x')), ('continue', 1), j))), ('opset', 'a', '+', N(1)))), a),
+          SEQ(('decl', 'a', N(0)), ('for', 'i', L123, ('for', 'k', L123, SEQ(('decl', 'b', ('foryield', 'j', L123, None, ('if', B('==', B('+', j, V('k')), V('x')), ('continue', 2), j))), ('opset', 'a', '+', N(1))))), a),
+          # (a `break` in the same position is absorbed by the loop whose clause is being evaluated — undocumented either way, not part of the family)
+          SEQ(('decl', 'a', N(0)), ('for', 'i', L123, SEQ(('for', 'j', ('if', B('==', i, V('x')), ('continue', 0), L123), ('opset', 'a', '+', N(1))), ('opset', 'a', '+', N(100)))), a)]
     # try / catch / throw
     P += [('try', ('throw', V('x')), 'e', B('+', V('e'), N(1))), ('try', V('x'), 'e', N(0)), ('try', V('q'), 'e', N(5)), ('throw', V('x')),
           ('try', ('try', ('throw', V('x')), 'e', ('throw', B('+', V('e'), N(1)))), 'e', B('*', V('e'), N(2))),
